@@ -11,6 +11,7 @@ REASON = {
  "expr_ext::ArgList::altargs": "not used by the analyser; first Name child",
  "expr_ext::ArrayExpr::kind": "array literal [e; n] has exactly two expression children (value, length) when is_repeat; otherwise the element list is the child iterator itself",
  "expr_ext::AssignmentStmt::rhs": "assignment_statement: the target is an Identifier/IndexedIdentifier node (not an Expr for indexed targets); the value is the last expression child",
+ "node_ext::AssignmentStmt::identifier": "expr_bp completes ASSIGNMENT_STMT around lhs.precede(): the target (IDENTIFIER or INDEXED_IDENTIFIER) is the first child; fix 2nd of 2026-09-26 (selecting the first Identifier child returned the value of `a[0] = b;`)",
  "expr_ext::BinExpr::lhs": "expr_bp: lhs.precede(p) .. BIN_EXPR has the left operand as first and the right operand as second expression child",
  "expr_ext::BinExpr::rhs": "see BinExpr::lhs",
  "expr_ext::BinExpr::sub_exprs": "see BinExpr::lhs",
@@ -22,8 +23,10 @@ REASON = {
  "expr_ext::RangeExpr::start_step_stop": "range_expr parses e0 ':' e1 [':' e2]; OpenQASM writes start:step:stop, so with three children the middle one is the step and with two the second is the stop",
  "node_ext::ForStmt::loop_body": "for_stmt: the iterable may itself be written as a braced set expression; the body is the last block child",
  "node_ext::IfStmt::condition": "if_stmt: condition expression is the first expression child",
- "node_ext::IfStmt::then_branch_block": "if_stmt: cond, then-body, else-body are the expression children 0, 1, 2 when the bodies are blocks",
- "node_ext::IfStmt::else_branch_block": "see then_branch_block",
+ "node_ext::IfStmt::then_branch_block": "if_stmt: `if` `(` cond `)` then-body [`else` else-body]: the then-body is the second child node before the `else` keyword (the first is the condition), whether it is a block or a single statement (fix of 2026-09-26)",
+ "node_ext::IfStmt::else_branch_block": "the else-body is the first child node after the `else` keyword",
+ "node_ext::IfStmt::then_branch_stmt": "see then_branch_block (cast to Stmt)",
+ "node_ext::IfStmt::else_branch_stmt": "see else_branch_block (cast to Stmt)",
  "node_ext::WhileStmt::body": "while_stmt: body block",
  "node_ext::WhileStmt::condition": "while_stmt: condition is the first expression child",
  "node_ext::WhileStmt::loop_body": "while_stmt: body is the last block child",
